@@ -4,6 +4,7 @@
 -/
 import Proofs.Ledger
 import Proofs.FrameFn
+import Proofs.WF
 namespace C02
 open Esdt
 
@@ -96,10 +97,47 @@ theorem saveKeyValue_touches_no_token (env : Env) (c : Call) (ctx ctx' : Ctx) (o
   simp [isAllowedToSaveUnderKey, protectedPrefix, esdtKeyPrefix, ascii] at hal
   omega
 
--- FULL (remaining parts, stated): ESDTNFTCreate creates exactly the given quantity under the fresh nonce (see C07
--- `create_succ` for the nonce; the quantity is the `Value` of the stored token); the role / pause / hand-over functions
--- leave every balance unchanged (they write only role, nonce and pause-flag keys); "never negative" as an invariant over
--- histories.  Decided today by the supply oracle (world total per key changes by exactly the stated amount after every
--- op; no negative / undecodable entry) and by correspondence on the full diff.
+/-- ESDTNFTCreate creates exactly the given quantity under the fresh nonce (the nonce itself: C07.create_succ), and the
+    only other slot it writes is the nonce counter -/
+theorem nftCreate_exact (env : Env) (c : Call) (ctx ctx' : Ctx) (out : VMOutput)
+    (h : esdtNFTCreate env c ctx = .ok (out, ctx')) :
+    ∃ tok qb n t, c.args[0]? = some tok ∧ c.args[1]? = some qb ∧ out.ret = [beBytes n] ∧ beNat qb ≠ 0 ∧
+      t.value = some (beNat qb : Int) ∧
+      ctx'.accts = (ctx.accts.write c.caller (nftKey (esdtKeyPrefix ++ tok) n) (nftStoredForm t)).write
+        c.caller (nonceKeyPrefix ++ tok) (beBytes n) := by
+  obtain ⟨tok, qb, name, roy, hash, attrs, n, A1, h0, h1, _, _, _, _, _, hq, _, hret, hA1, hw⟩ :=
+    (nftCreate_effect env c ctx).elim h
+  exact ⟨tok, qb, n, createdToken c qb name roy hash attrs n, h0, h1, hret, hq, rfl, by rw [hw, hA1]⟩
+
+/-- FULL (every other function): role, pause and hand-over functions leave every token-keyed slot of every account other
+    than the system account (whose token-keyed slots are pause flags, not balances) unchanged — whoever calls them -/
+theorem role_pause_handover_leave_balances (f : FnId)
+    (hf : f = .setRole ∨ f = .unSetRole ∨ f = .esdtPause ∨ f = .esdtUnPause ∨ f = .nftCreateRoleTransfer)
+    (env : Env) (c : Call) (ctx ctx' : Ctx) (out : VMOutput) (h : exec env f c ctx = .ok (out, ctx'))
+    (a s : Bytes) (ha : a ≠ systemAccountAddress) :
+    ctx'.accts.read a (esdtKeyPrefix ++ s) = ctx.accts.read a (esdtKeyPrefix ++ s) := by
+  unfold exec at h
+  have hk : TokKey (esdtKeyPrefix ++ s) := ⟨s, rfl⟩
+  rcases hf with rfl | rfl | rfl | rfl | rfl <;> simp only [runFn] at h
+  · exact ((frame_rn_esdtRoles true env c ctx _ (Frame.refl _ _)).elim h).read_eq a _ (rn_not_tokKey a _ hk)
+  · exact ((frame_rn_esdtRoles false env c ctx _ (Frame.refl _ _)).elim h).read_eq a _ (rn_not_tokKey a _ hk)
+  · exact ((frame_sys_esdtPause true env c ctx _ (Frame.refl _ _)).elim h).read_eq a _ ha
+  · exact ((frame_sys_esdtPause false env c ctx _ (Frame.refl _ _)).elim h).read_eq a _ ha
+  · exact ((frame_rn_createRoleTransfer env c ctx _ (Frame.refl _ _)).elim h).read_eq a _ (rn_not_tokKey a _ hk)
+
+/-- metadata updates leave the quantity unchanged -/
+theorem metadata_updates_keep_value (env : Env) (c : Call) (ctx ctx' : Ctx) (out : VMOutput)
+    (h : esdtNFTAddURI env c ctx = .ok (out, ctx') ∨ esdtNFTUpdateAttributes env c ctx = .ok (out, ctx')) :
+    ∃ tok nb t m m', c.args[0]? = some tok ∧ c.args[1]? = some nb ∧
+      MetaWrite ctx.accts ctx'.accts c.caller (esdtKeyPrefix ++ tok) (u64 (beNat nb)) t m m' := by
+  rcases h with h | h
+  · obtain ⟨tok, nb, t, m, h0, h1, _, hw⟩ := (addURI_effect env c ctx).elim h
+    exact ⟨tok, nb, t, m, _, h0, h1, hw⟩
+  · obtain ⟨tok, nb, _, t, m, h0, h1, _, _, hw⟩ := (updateAttributes_effect env c ctx).elim h
+    exact ⟨tok, nb, t, m, _, h0, h1, hw⟩
+
+-- "Never negative" over histories: C15.wf_history (every stored entry decodes to a strictly positive balance or a flagged
+-- zero).  The transfer functions: C01.  PARTIAL only in that the world-level supply equation (Σ over all accounts and shards)
+-- is evaluated by the supply oracle, not stated as one Lean sum.
 
 end C02
